@@ -214,6 +214,15 @@ def run_check(prop_id, tier, seed, jobs=None):
     level = mod.LEVEL
     plan = mod.plan(tier, seed)
     chunks = plan['chunks']
+    # replay files of earlier runs of this property are stale by definition: a run reports only what it found itself
+    rd = os.path.join(os.environ.get('VERIF_REPLAY_DIR') or os.path.join(VERIF, 'replays'), prop_id)
+    if os.path.isdir(rd):
+        for fn in os.listdir(rd):
+            if fn.endswith('.json'):
+                try:
+                    os.unlink(os.path.join(rd, fn))
+                except OSError:
+                    pass
     jobs = jobs or int(os.environ.get('VERIF_JOBS', '0')) or (os.cpu_count() or 4)
     jobs = max(1, min(jobs, len(chunks)))
     n = collections.Counter()
